@@ -233,6 +233,10 @@ func cliModel1(bin, arg0 string, argv []string, fs *simos.FS, stdin []byte) (e E
 	// -set / -mset and the keys identify objects within it
 	readFile := func(name string) ([]byte, bool) {
 		name = fs.Resolve(name)
+		if name == simos.DevStdin {
+			// the standard input under its name
+			return stdin, true
+		}
 		if fs.Dirs[name] || fs.Unreadable[name] {
 			return nil, false
 		}
